@@ -114,6 +114,10 @@ static void Emit(const Node& n, std::string& o)
 		for (auto& p : n.uses) o += p + " ";
 		kids();
 	} else if (t == "if") { o += n.k.size() == 3 ? "ife " : "if "; kids(); }
+	else if (t == "ifc") { /* if / else if … chain: s = "1" when a trailing else block is present */
+		size_t nb = (n.k.size() - (n.s == "1" ? 1 : 0)) / 2;
+		o += "ifc " + std::to_string(nb) + " " + (n.s == "1" ? "1" : "0") + " "; kids();
+	}
 	else { o += t + " "; kids(); }   /* null b0 b1 this locals globals ~ ! neg pos par && || in !in idx tern while ret brk cont throw try */
 }
 
@@ -150,6 +154,14 @@ static Node Parse(Tok& tk, int depth = 0)
 		return r;
 	}
 	if (t == "if") { Node c = P(); Node a = P(); return N2("if", c, a); }
+	if (t == "ifc") {
+		size_t nb = strtoul(tk.next().c_str(), nullptr, 10);
+		std::string he = tk.next();
+		Node r = N0("ifc", he == "1" ? "1" : "0");
+		for (size_t i = 0; i < 2 * nb + (he == "1" ? 1 : 0) && !tk.bad; i++) r.k.push_back(P());
+		if (nb == 0) tk.bad = true;
+		return r;
+	}
 	if (t == "ife") { Node r = N0("if"); r.k.push_back(P()); r.k.push_back(P()); r.k.push_back(P()); return r; }
 	if (t == "tern") { Node r = N0("tern"); r.k.push_back(P()); r.k.push_back(P()); r.k.push_back(P()); return r; }
 	if (t == "~" || t == "!" || t == "neg" || t == "pos" || t == "par" || t == "ret" || t == "throw") return N1(t, P());
@@ -317,6 +329,14 @@ struct Printer {
 		if (t == "set") return Expr(n.k[0]) + " " + n.s + " " + Val(n.k[1]);
 		if (t == "var") return "var " + n.s + " = " + Val(n.k[0]);
 		if (t == "if") return "if (" + Expr(n.k[0]) + ") " + Block(n.k[1]) + (n.k.size() == 3 ? " else " + Block(n.k[2]) : "");
+		if (t == "ifc") {
+			size_t nb = (n.k.size() - (n.s == "1" ? 1 : 0)) / 2;
+			std::string o;
+			for (size_t i = 0; i < nb; i++)
+				o += std::string(i ? " else if (" : "if (") + Expr(n.k[2 * i]) + ") " + Block(n.k[2 * i + 1]);
+			if (n.s == "1") o += " else " + Block(n.k.back());
+			return o;
+		}
 		if (t == "tern") return Val(n.k[0]) + " ? " + Val(n.k[1]) + " : " + Val(n.k[2]);
 		if (t == "while") return "while (" + Expr(n.k[0]) + ") " + Block(n.k[1]);
 		if (t == "for") return "for (" + n.names[0] + (n.names[1].empty() ? "" : " => " + n.names[1]) + " in " + Val(n.k[0]) + ") " + Block(n.k[1]);
@@ -744,6 +764,15 @@ struct Gen {
 					break;
 				default: out.push_back(N2("set", N0("v", v.first), Expr(TAny, 2), "="));
 			}
+		} else if (r < 50 && pm(400)) {
+			Node xv;
+			std::string x;
+			if (VarOf(TNum, xv)) x = xv.s;
+			else { x = NewVar(); out.push_back(N1("var", NumLit(), x)); vars.push_back({ x, TNum }); }
+			std::string rv = NewVar();
+			out.push_back(N1("var", N0("s", "none"), rv));
+			vars.push_back({ rv, TStr });
+			out.push_back(ElifChain(x, rv, 2 + rng.below(3), rng.coin()));
 		} else if (r < 50) {
 			Node n = N0("if");
 			n.k.push_back(Expr(TBool, 2));
@@ -988,6 +1017,137 @@ struct Gen {
 		return NL("blk", { N2("op", lit(), lit(), "-") });
 	}
 
+
+	/* if / else if chains with OVERLAPPING conditions: the first true condition in source order decides */
+	Node ElifChain(const std::string& x, const std::string& r, int nb, bool withElse)
+	{
+		Node c = N0("ifc", withElse ? "1" : "0");
+		int th = 1 + rng.below(4);
+		bool asc = pm(700);
+		for (int i = 0; i < nb; i++) {
+			Node cond = N2("op", N0("v", x), Num(std::to_string(th)), asc ? "<" : ">=");
+			if (pm(150)) cond = N2("||", cond, N2("op", N0("v", x), Num(std::to_string(rng.below(20))), "=="));
+			c.k.push_back(cond);
+			c.k.push_back(NL("blk", { N2("set", N0("v", r), N0("s", "b" + std::to_string(i)), "=") }));
+			th = asc ? th * (2 + rng.below(4)) + rng.below(3) : std::max(0, th - 1 - (int)rng.below(3));
+		}
+		if (withElse) c.k.push_back(NL("blk", { N2("set", N0("v", r), N0("s", "else"), "=") }));
+		return c;
+	}
+
+	Node Elif()
+	{
+		std::vector<Node> ks;
+		int nchains = 1 + rng.below(3);
+		std::vector<Node> res;
+		for (int j = 0; j < nchains; j++) {
+			std::string x = "x" + std::to_string(j), r = "r" + std::to_string(j);
+			ks.push_back(N1("var", Num(std::to_string(rng.below(pm(500) ? 12 : 200))), x));
+			ks.push_back(N1("var", N0("s", "none"), r));
+			ks.push_back(ElifChain(x, r, 2 + rng.below(4), rng.coin()));
+			res.push_back(N0("v", r));
+		}
+		if (pm(400)) {
+			/* the chain as an expression: its value is the value of the chosen block */
+			Node c = N0("ifc", "1");
+			int th = 2;
+			int nb = 3 + rng.below(2);
+			for (int i = 0; i < nb; i++) { c.k.push_back(N2("op", N0("v", "x0"), Num(std::to_string(th)), "<")); c.k.push_back(NL("blk", { Num(std::to_string(i)) })); th *= 3; }
+			c.k.push_back(NL("blk", { Num("99") }));
+			ks.push_back(N1("var", c, "e"));
+			res.push_back(N0("v", "e"));
+		}
+		ks.push_back(NL("arr", res));
+		return NL("blk", ks);
+	}
+
+	/* an expression that raises, for use as a value */
+	Node ThrowingValue()
+	{
+		switch (rng.below(6)) {
+			case 0: return N2("op", N0("null"), N0("null"), "+");
+			case 1: return N0("v", "undefined_name");
+			case 2: return N2("idx", NL("arr", { Num("1") }), Num("5"));
+			case 3: return N2("op", Num("1"), Num("0"), "/");
+			case 4: return Method(N0("s", "abc"), "substr", { Num("9") });
+			default: return N2("op", N0("b1"), Num("1"), "<");
+		}
+	}
+
+	/* an error raised INSIDE a dictionary literal and caught in the same frame must leave `this` as it was */
+	Node SelfKeepBody(bool inFunction)
+	{
+		std::vector<Node> ks;
+		ks.push_back(N1("var", NL("arr", {}), "r"));
+		int rounds = 1 + rng.below(2);
+		for (int i = 0; i < rounds; i++) {
+			std::vector<Node> fields;
+			int before = rng.below(3);
+			for (int j = 0; j < before; j++) fields.push_back(N2("set", N0("v", std::string(1, 'a' + j)), Num(std::to_string(j)), "="));
+			Node bad = pm(250) ? N1("throw", N0("s", "E")) : N2("set", N0("v", "z"), ThrowingValue(), "=");
+			if (pm(350)) {
+				/* the failing literal is nested in another literal */
+				std::vector<Node> inner = { N2("set", N0("v", "p"), Num("1"), "="), bad };
+				bad = N2("set", N0("v", "n"), NL("dict", inner), "=");
+			}
+			fields.push_back(bad);
+			ks.push_back(N2("try", NL("blk", { N1("var", NL("dict", fields), "d") }), NL("blk", { Method(N0("v", "r"), "add", { N0("s", "caught") }) })));
+			std::string g = "g" + std::to_string(rng.below(4));
+			ks.push_back(N2("set", N0("v", g), Num(std::to_string(3 + i)), "="));          /* plain assignment to an undeclared name: goes to `this` */
+			ks.push_back(Method(N0("v", "r"), "add", { N0("v", g) }));                       /* … and is read back */
+			ks.push_back(Method(N0("v", "r"), "add", { N1("dot", Sys("typeof", { N0("this") }), "name") }));
+			if (pm(500)) ks.push_back(Method(N0("v", "r"), "add", { N2("op", N0("this"), N0("globals"), "==") }));
+			if (pm(400)) ks.push_back(N2("set", N1("dot", N0("this"), "g" + std::to_string(rng.below(4))), N0("s", "t"), "="));
+		}
+		ks.push_back(inFunction ? N1("ret", N0("v", "r")) : N0("v", "r"));
+		return NL("blk", ks);
+	}
+
+	Node SelfKeep()
+	{
+		if (pm(400)) {
+			Node f = N0("fn"); f.k.push_back(SelfKeepBody(true));
+			std::vector<Node> ks = { N1("var", f, "f"), N1("var", NL("call", { N0("v", "f") }), "out") };
+			ks.push_back(NL("arr", { N0("v", "out"), N1("dot", Sys("typeof", { N0("this") }), "name") }));
+			return NL("blk", ks);
+		}
+		return SelfKeepBody(false);
+	}
+
+	/* prototype methods applied to the EMPTY string (literal, variable, computed) */
+	Node EmptyStr()
+	{
+		std::vector<Node> ks;
+		ks.push_back(N1("var", N0("s", ""), "e"));
+		auto recv = [&]() -> Node {
+			switch (rng.below(5)) {
+				case 0: return N0("s", "");
+				case 1: return N0("v", "e");
+				case 2: return Method(N0("s", "ab"), "replace", { N0("s", "ab"), N0("s", "") });
+				case 3: return Method(N0("s", "  "), "trim");
+				default: return N2("op", N0("s", ""), N0("v", "e"), "+");
+			}
+		};
+		std::vector<Node> res;
+		int n = 2 + rng.below(5);
+		for (int i = 0; i < n; i++) {
+			switch (rng.below(10)) {
+				case 0: res.push_back(Method(recv(), "len")); break;
+				case 1: res.push_back(Method(recv(), "upper")); break;
+				case 2: res.push_back(Method(recv(), "lower")); break;
+				case 3: res.push_back(Method(recv(), "trim")); break;
+				case 4: res.push_back(Method(recv(), "reverse")); break;
+				case 5: res.push_back(Method(recv(), "to_string")); break;
+				case 6: res.push_back(Method(recv(), "contains", { N0("s", rng.coin() ? "" : "a") })); break;
+				case 7: res.push_back(Method(recv(), "split", { N0("s", ",") })); break;
+				case 8: res.push_back(Method(recv(), "find", { N0("s", "a") })); break;
+				default: res.push_back(Method(recv(), "replace", { N0("s", "a"), N0("s", "b") })); break;
+			}
+		}
+		ks.push_back(NL("arr", res));
+		return NL("blk", ks);
+	}
+
 	Node Program()
 	{
 		std::vector<Node> ks;
@@ -1213,7 +1373,7 @@ int main(int argc, char **argv)
 		else deep.push_back({ k, 700 });
 	}
 	long nDeep = (long)deep.size();
-	long nTheme = thorough ? 9000 : 1500;   /* catch loops, closures called repeatedly, array subtraction: a third each */
+	long nTheme = thorough ? 18000 : 3000;   /* catch loops, closures called repeatedly, array subtraction: a third each */
 	long total = nProg + nExpr + nChaos + nHostile + nDeep + nTheme;
 	RunAll(total, [&](long i) {
 		Case c;
@@ -1231,10 +1391,13 @@ int main(int argc, char **argv)
 		else {
 			Gen g(s, 0);
 			c.kind = 'P';
-			switch (i % 3) {
+			switch (i % 6) {
 				case 0: c.id = "catchloop" + std::to_string(i); c.ast = g.CatchLoop(); break;
 				case 1: c.id = "scope" + std::to_string(i); c.ast = g.ClosureProgram(); break;
-				default: c.id = "arrsub" + std::to_string(i); c.ast = g.ArrSub(); break;
+				case 2: c.id = "arrsub" + std::to_string(i); c.ast = g.ArrSub(); break;
+				case 3: c.id = "elif" + std::to_string(i); c.ast = g.Elif(); break;
+				case 4: c.id = "selfkeep" + std::to_string(i); c.ast = g.SelfKeep(); break;
+				default: c.id = "emptystr" + std::to_string(i); c.ast = g.EmptyStr(); break;
 			}
 		}
 		return c;
